@@ -1,4 +1,4 @@
-"""command line: ./check <Cxx> [--tier quick|thorough] | replay <file>"""
+"""command line: ./check <Cxx> [--tier quick|thorough] | replay <file> | selftest | axioms"""
 from __future__ import annotations
 
 import importlib
@@ -62,6 +62,13 @@ def main(argv):
         from nssvc import selftest
 
         return selftest.main(argv[1:])
+    if argv[0] == "axioms":
+        from nssvc import axioms_export
+
+        r = axioms_export.record()
+        print(json.dumps({k: v for k, v in r.items() if k != "lean_output_tail"}, indent=1))
+        print("axiom library: %d instances of %d generic schemas %s" % (r["n_instances"], r["n_generic_proved"], "PROVED by lean" if r["ok"] else "NOT proved (%s)" % (r["unproved"] or r["lean_output_tail"][-300:])))
+        return 0 if r["ok"] else 3
     prop = argv[0]
     tier = os.environ.get("VERIF_TIER", "quick")
     if "--tier" in argv:
